@@ -231,6 +231,11 @@ func (c *Checker) thoroughPlans() []runPlan {
 	if c.Prop == "C06" || c.Prop == "C07" {
 		out = append(out, runPlan{Build: BuildCfg{Corpus: c.Seed, Knobs: map[string]string{"defaultDecoderMemSize": "128"}}, Runs: 3, Label: "plain+block=128"})
 	}
+	if c.Prop == "C06" {
+		// the race build carries checkptr instrumentation (quiet on the unchanged tree): unsafe pointer arithmetic
+		// that leaves its allocation, or integers converted back to pointers, kill the child
+		out = append(out, runPlan{Build: BuildCfg{Corpus: c.Seed, Race: true}, Runs: 2, Label: "race+checkptr"})
+	}
 	if c.Prop == "C08" {
 		out = append(out, runPlan{Build: BuildCfg{Corpus: c.Seed, Race: true, Stmt: true}, Runs: 2, Label: "race+stmt-yields"})
 	}
